@@ -35,7 +35,7 @@ EXTENDS SandboxRules
 CONSTANTS
     Confs,        \* model checking: set of configurations
                   \*   [env |-> "sandbox" | "immutable",
-                  \*    impl |-> "abstract" | "operational" | "fixed"   (which gate decides),
+                  \*    impl |-> "abstract" | "operational" | "legacy"   (which gate decides),
                   \*    policy |-> "default" | "denyname",
                   \*    icept |-> set of intercepted operators ("u-" / "u+" = the unary ones)]
     MaxSteps,     \* model checking: number of Fetch / operator steps explored
@@ -225,16 +225,27 @@ TypeOK ==
 \* C17: nothing fetched under a private / internal name is ever handed to, or used by, the template
 C17_NoTaintedUse == (handed \cup used) \cap tainted = {}
 
+\* C17: is_safe_attribute as written in sandbox.py decides exactly like the rule
+\* (constant-level: evaluated once)
+RefinesTable ==
+    \A kind \in ObjKinds : \A a \in ModelNames :
+        (~(a.c1 = "_" \/ OpInternal(kind, a))) = (~Forbidden(kind, a))
+C17_OperationalGateRefinesRule == RefinesTable
+
 \* C18: a callable the sandbox deems unsafe never runs
 C18_UnsafeNeverRuns == \A v \in ran : ~UnsafeCallable(Policy, CallableOf(v))
+
+C18_GrantedAreSafe == \A v \in granted : ~UnsafeCallable(Policy, CallableOf(v))
 
 \* C19: in the immutable sandbox the containers stay as they were
 C19_DataUnchanged == Env = "immutable" => (data = Data0 /\ changed = {})
 
 \* C19: every mutating method (by the semantics in SandboxData) is refused by the gate
-C19_GateCoversMutators ==
-    Env = "immutable" =>
-        \A k \in ContainerKinds : \A m \in Mutators(k) : ~GateAllows(Impl, Env, k, MethodNm(m))
+\* (a zero-arity constant table: TLC evaluates it once)
+CoversTable ==
+    [impl \in {"abstract", "operational", "legacy"} |->
+        \A k \in ContainerKinds : \A m \in Mutators(k) : ~GateAllows(impl, "immutable", k, MethodNm(m))]
+C19_GateCoversMutators == Env = "immutable" => CoversTable[Impl]
 
 \* C20: the hook log is exactly the sub-sequence of intercepted applications
 RECURSIVE OnlyIntercepted(_)
